@@ -85,6 +85,7 @@ type env struct {
 	seq      uint32
 	log      *slog.Logger
 	front    *keFront
+	stray    atomic.Int64 // datagrams that arrived at the default NTP port instead of the relay
 	srvTLS   *tls.Config
 	aged     time.Duration       // how much older the provider has been made so far
 	keys     map[uint16]keyInfo  // every server key seen as the current one: value and end of validity
@@ -202,6 +203,24 @@ func newEnv() *env {
 		time.Sleep(50 * time.Millisecond)
 	}
 	e.front = newKeFront(e)
+	// the default NTP port of this address: a client that ignores what the key exchange
+	// told it ends up here; it is answered at once with two datagrams it cannot use
+	stray, err := net.ListenUDP("udp4", &net.UDPAddr{IP: e.ip, Port: ntp.ServerPortIP})
+	if err != nil {
+		fatal("default port: %v", err)
+	}
+	go func() {
+		b := make([]byte, 4096)
+		for {
+			_, a, err := stray.ReadFromUDP(b)
+			if err != nil {
+				return
+			}
+			e.stray.Add(1)
+			stray.WriteToUDP(junk(), a)
+			stray.WriteToUDP(junk(), a)
+		}
+	}()
 	return e
 }
 
@@ -349,7 +368,7 @@ type stepObs struct {
 	openable  bool
 	curKey    int64    // the provider's current key id right after the reply (-1: not asked)
 	forged    [][]byte // cookies of a forged datagram delivered to the client
-	noSend    int      // nothing sent although the fetcher holds data: 1 the call's deadline passed first, 2 the server named is not an IP address, 3 unexplained
+	noSend    int      // nothing reached the relay although the fetcher holds data: 1 the short allowance of a timeout step passed first, 2 the server named is not an IP address, 3 unexplained, 4 sent elsewhere
 	forwarded int
 	replies   [][]byte
 	repNonce  []byte
@@ -390,6 +409,7 @@ func (e *env) runStep(x *cl, st step, old *[][]byte) stepObs {
 		e.aged += time.Duration(st.ageNs)
 	}
 	d0 := x.c.Auth.NTSKEFetcher.VerifData()
+	stray0 := e.stray.Load()
 	// how a needed key exchange goes
 	x.keFail.Store(false)
 	e.front.mode.Store(0)
@@ -572,10 +592,12 @@ func (e *env) runStep(x *cl, st step, old *[][]byte) stepObs {
 	}
 	if !o.sent && len(d.C2sKey) > 0 {
 		switch {
+		case e.stray.Load() != stray0:
+			o.noSend = 4 // a request left, but not to the server and port of the key exchange
 		case net.ParseIP(d.Server) == nil:
 			o.noSend = 2
-		case errors.Is(cerr, os.ErrDeadlineExceeded) || errors.Is(cerr, context.DeadlineExceeded):
-			o.noSend = 1
+		case st.action == actTimeout && (errors.Is(cerr, os.ErrDeadlineExceeded) || errors.Is(cerr, context.DeadlineExceeded)):
+			o.noSend = 1 // only the short allowance may pass; with the hard limit this is a hang
 		default:
 			o.noSend = 3
 		}
